@@ -17,3 +17,5 @@ def run(ctx: Ctx) -> None:
     prove(ctx, [FUNCS[2], FUNCS[3], FUNCS[4], FUNCS[5], FUNCS[8], VALUEPOOL])
     prove_lemmas(ctx, "contracts.validation_lemmas", ["invalid_node_is_like_kann"])
     run_bounded(ctx, "C16")
+    from bounded import multipart_invalid
+    multipart_invalid.run(ctx, "C16")
